@@ -632,6 +632,7 @@ def gen_case(spec):
     ops = []
     handles = {c: [] for c in range(n_clients)}  # client -> [(h, cls, rec)]
     defined = []
+    hints = {}
     name_pool = ["UserPartA", "UserPartB", "UserPartA"]  # repeated name on purpose
 
     def add(client, op):
@@ -653,6 +654,8 @@ def gen_case(spec):
         handles[0].extend([("c0h0", a, ra), ("c0h1", b, rb)])
 
     def pick_class():
+        if defined and g.random() < 0.3:
+            return g.choice(defined)["id"]
         cands = pool + [d["id"] for d in defined]
         return g.choice(cands)
 
@@ -666,6 +669,8 @@ def gen_case(spec):
             cid = pick_class()
             # bias: a record that separates this class from one asked before
             rid = g.choice(recs)
+            if hints.get(cid) and g.random() < 0.7:
+                rid = g.choice(hints[cid])
             if hs and g.random() < 0.5 and cid in W["classes"]:
                 prev = g.choice(hs)[1]
                 if prev in W["classes"]:
@@ -689,6 +694,10 @@ def gen_case(spec):
         elif x < 0.96 and len(defined) < 4:
             spec_d = _gen_define(g, pool, defined, name_pool)
             if spec_d:
+                hints[spec_d["id"]] = spec_d.pop("hint_recs", [])
+                for r_ in hints[spec_d["id"]]:
+                    if r_ not in recs:
+                        recs.append(r_)
                 defined.append(spec_d)
                 add(client, {"op": "define", "cls": spec_d})
         else:
@@ -715,8 +724,12 @@ def _is_vectorish(cid, defined):
 
 
 def _gen_define(g, pool, defined, name_pool):
+    """A class defined during the run.  `hint_recs` (kit plasmids accepted by the
+    class the signature was copied from, and by the model class) make the new
+    class distinguishable from its relatives and namesakes."""
     cmeta = W["cmeta"]
-    kind = g.choice(["sig-under-kit-base", "subclass-of-concrete", "override-structure", "same-name"])
+    acc = W["accepts"] or {}
+    kind = g.choice(["sig-under-kit-base", "subclass-of-concrete", "override-structure", "same-name", "same-name"])
     parts = [c for c in pool if c in cmeta and cmeta[c]["kind"] == "kit" and W["ancestors"][c] and any(a in W["abstract_bases"] for a in W["ancestors"][c])]
     if not parts:
         return None
@@ -727,34 +740,49 @@ def _gen_define(g, pool, defined, name_pool):
         return None
     k = len(cutter.ovhgseq)
     sig_src = getattr(mcls, "signature", None)
+    # siblings: kit parts with the same bases and their own signature
+    sibs = [c for c in W["corder"] if c != model and cmeta[c]["kind"] == "kit" and W["classes"][c].__bases__ == mcls.__bases__
+            and isinstance(W["classes"][c].__dict__.get("signature"), tuple)]
+    hint = []
 
     def rnd_sig():
         c = g.random()
-        if c < 0.25:
+        if c < 0.45 and sibs:
+            sib = g.choice(sibs)
+            hint.extend(sorted(acc.get(sib, ()))[:40])
+            return list(W["classes"][sib].signature)
+        if c < 0.6:
             return ["N" * k, "N" * k]
-        if c < 0.5 and sig_src not in (None, NotImplemented):
+        if c < 0.75 and sig_src not in (None, NotImplemented):
             return [sig_src[0], dna.rand_dna(g, k)]
         return [dna.rand_dna(g, k), dna.rand_dna(g, k)]
 
+    def done(spec):
+        hint.extend(sorted(acc.get(model, ()))[:40])
+        spec["hint_recs"] = g.sample(hint, min(len(hint), 4)) if hint else []
+        return spec
+
     did = "def:%d" % len(defined)
+    bases = [W["rev"][b] for b in mcls.__bases__ if b in W["rev"]]
     if kind == "sig-under-kit-base":
         # same bases as the model part: (kit part base, kit module/vector class)
-        bases = [W["rev"][b] for b in mcls.__bases__ if b in W["rev"]]
         if len(bases) != len(mcls.__bases__):
             return None
-        return {"id": did, "name": "UserPart%d" % len(defined), "bases": bases, "attrs": {"signature": rnd_sig()}}
+        return done({"id": did, "name": "UserPart%d" % len(defined), "bases": bases, "attrs": {"signature": rnd_sig()}})
     if kind == "subclass-of-concrete":
-        return {"id": did, "name": "UserSub%d" % len(defined), "bases": [model], "attrs": {"signature": rnd_sig()}}
+        return done({"id": did, "name": "UserSub%d" % len(defined), "bases": [model], "attrs": {"signature": rnd_sig()}})
     if kind == "override-structure":
         other = g.choice(parts)
         lit = structure_literal(other)
         if lit is None:
             return None
-        return {"id": did, "name": "UserStruct%d" % len(defined), "bases": [model], "attrs": {"structure": lit}}
-    bases = [W["rev"][b] for b in mcls.__bases__ if b in W["rev"]]
+        hint.extend(sorted(acc.get(other, ()))[:40])
+        return done({"id": did, "name": "UserStruct%d" % len(defined), "bases": [model], "attrs": {"structure": lit}})
+    # same __name__ as another class (a kit class the user shadows, or an earlier user class)
     if len(bases) != len(mcls.__bases__):
         return None
-    return {"id": did, "name": g.choice(name_pool), "bases": bases, "attrs": {"signature": rnd_sig()}}
+    names = [mcls.__name__] + [d["name"] for d in defined] + name_pool
+    return done({"id": did, "name": g.choice(names), "bases": bases, "attrs": {"signature": rnd_sig()}})
 
 
 def _structure_child(cid):
